@@ -24,6 +24,7 @@ ASSUMPTIONS = [
     "shapes up to 6 voxels per side (quick: 4); larger shapes are not enumerated",
     "numpy/scipy FFT trusted; float32 arithmetic tolerance 2e-5 absolute on operator entries",
     "Model.pre_transform is exercised through ZNCCAlignment (order fixed at 2 by the library)",
+    "added during the seeding waves: input dtypes, call histories over the memoised weights, cutoffs with more than three significant digits, sides with prime factors 13-37 and boxes of 48^3, 49^3, (40,56,48) (four impulses and a noise image instead of the full operator extraction)",
 ]
 
 ENTRIES = [
